@@ -8,6 +8,7 @@ def judge(prop, tier, seed, viols, sig_fn, repro_fn, group_key=None):
     scratch; a violation whose signature matches an OPEN entry of known_findings.json is printed
     as KNOWN-FINDING and does not fail the check.  -> (rc, number of violating steps, known hits)"""
     rc, nviol, known_hit, nrep = 0, 0, {}, 0
+    unrep = []   # failing signatures that did not fail again when replayed from scratch (R1: no verdict from them)
     # a broken state invariant persists over the following steps of the same run: the first failing step
     # of a run is the one that counts (and the one whose call is named in the signature)
     first, count = {}, {}
@@ -29,8 +30,7 @@ def judge(prop, tier, seed, viols, sig_fn, repro_fn, group_key=None):
         v, line, rs = items[0]
         ok, desc = repro_fn(v, line, rs)
         if not ok:
-            print("INCONCLUSIVE property=%s clause %s (signature %s) did not reproduce on replay" % (prop, v["clause"], sig))
-            rc = max(rc, 2)
+            unrep.append((v["clause"], sig))
             continue
         if k:
             known_hit[sig] = len(items)
@@ -44,6 +44,13 @@ def judge(prop, tier, seed, viols, sig_fn, repro_fn, group_key=None):
         print("VIOLATION property=%s replay=%s" % (prop, path))
         print("  clause %s failed in %d runs; first: %s" % (v["clause"], len(items), brief(line)))
         rc = 1
+    # a reproduced violation is the verdict; a failing step that does not fail again on replay decides nothing (exit 2 on its own)
+    for clause, sig in unrep:
+        if rc == 1:
+            print("  (note: clause %s, signature %s, did not fail again when its run was replayed from scratch: not counted)" % (clause, sig))
+        else:
+            print("INCONCLUSIVE property=%s clause %s (signature %s) did not reproduce on replay" % (prop, clause, sig))
+            rc = 2
     hit_ids = set()
     for sig in known_hit:
         k = vlib.match_known(prop, sig)
